@@ -1288,7 +1288,7 @@ def sec_circuits(run, rng):
         d = stabiliser_defect(T, n, psi)
         if d > TOL:
             sv_bad += 1
-            report(run, "tableau:statevector:" + (lab or f"random{ci}"),
+            report(run, "tableau:statevector:" + (lab or f"random{min(sv_bad, 3)}"),
                    f"a stabiliser of the Clifford result does not stabilise the state-vector result (defect {d:.3g})",
                    {"kind": "circuit", "n": n, "descs": descs})
         if n <= 4 and ci % 4 == 0:
@@ -1330,7 +1330,7 @@ def sec_circuits(run, rng):
             run.case(["tableau", cases[ci][1], cases[ci][2]], nontrivial=len(cases[ci][2]) > 1)
             if not r_[labk]:
                 tab_ok = False
-                report(run, f"tableau:model:{ci}", "final tableau of the real backend differs from the model",
+                report(run, f"tableau:model:{min(ci, len(WITNESS_CIRCUITS) + 2)}", "final tableau of the real backend differs from the model",
                        {"kind": "circuit", "n": cases[ci][1], "descs": cases[ci][2]}, concrete=False)
     run.oblige(f"correspondence:final symplectic matrix model == CliffordBackend(numpy), {len(tab_items)} circuits, n <= {nmax}", tab_ok, "correspondence")
     run.oblige(f"test:stabiliser generators stabilise the state-vector result ({len(tab_items)} circuits, tol {TOL})", sv_bad == 0, "test")
